@@ -90,6 +90,21 @@ theorem C12_counterexample_colon_value :
       some [⟨"TIME".toList, [], "30".toList, "start time : 12".toList⟩] := by
   decide
 
+/-- **Mirror image** (found by the check, same root cause: the reader splits at the LAST colon): a ~Well
+DESCRIPTION containing ':' — `LOC. A : location: site` — written for 2.0 re-reads with value `A : location` and
+description `site`; written for 1.2 (`LOC. location: site : A`) it reads back unchanged.  So `descr_nocolon`
+cannot be dropped from `C12_version_swap` either. -/
+theorem C12_counterexample_colon_descr :
+    writeSection "2.0" "Well" [⟨"LOC".toList, "LOC".toList, [], .str "A".toList, "location: site".toList⟩] =
+      .ok ["LOC. A : location: site".toList] ∧
+    writeSection "1.2" "Well" [⟨"LOC".toList, "LOC".toList, [], .str "A".toList, "location: site".toList⟩] =
+      .ok ["LOC. location: site : A".toList] ∧
+    readSection "2.0" .well .preserve ["LOC. A : location: site".toList] =
+      some [⟨"LOC".toList, [], "A : location".toList, "site".toList⟩] ∧
+    readSection "1.2" .well .preserve ["LOC. location: site : A".toList] =
+      some [⟨"LOC".toList, [], "A".toList, "location: site".toList⟩] := by
+  decide
+
 /-- the item of the counter-example satisfies every clause of `TextConf` except `value_nocolon` -/
 theorem C12_counterexample_colon_value_conf :
     let it : WItem := ⟨"TIME".toList, "TIME".toList, [], .str "12:30".toList, "start time".toList⟩
@@ -119,6 +134,7 @@ example (c : MCase) :
 #print axioms C12_version_swap
 #print axioms C12_section_version_swap
 #print axioms C12_counterexample_colon_value
+#print axioms C12_counterexample_colon_descr
 #print axioms C12_counterexample_colon_value_conf
 
 end Lasio.Wr
